@@ -405,6 +405,14 @@ def cc_configs():
             for no_redact in (False, True):
                 for obf in (True, False):
                     out.append({"patterns": pk, "allow": al, "no_redact": no_redact, "obfuscate": obf})
+    # configurations in which NOTHING applies to the spec (no pattern / redaction exempt, no allow-list, every
+    # enabled obfuscator exempted): the emptiness clause must hold there too (added after a seeded change that
+    # short-cuts "no parsers" showed the 60 configurations above always had at least one parser)
+    ALL = ["hostname", "ip", "ipv6", "keyword", "mac", "password"]
+    for pk, no_redact in (("none", False), ("plain", True), ("regex", True)):
+        out.append({"patterns": pk, "allow": None, "no_redact": no_redact, "obfuscate": False, "keywords": False, "no_obf": ["password"]})
+        out.append({"patterns": pk, "allow": None, "no_redact": no_redact, "obfuscate": True, "no_obf": ALL})
+        out.append({"patterns": pk, "allow": None, "no_redact": no_redact, "obfuscate": True, "no_obf": ["password", "mac"]})
     return out
 
 
@@ -415,7 +423,7 @@ WR_CONFIGS = [{"spec": "plain", "allow": None}, {"spec": "filt", "allow": {"ALLO
 
 
 def b_cleaner(cfg):
-    return lib.build_cleaner({"keywords": [KW], "patterns": CC_PATTERNS[cfg.get("patterns", "plain")],
+    return lib.build_cleaner({"keywords": [KW] if cfg.get("keywords", True) else [], "patterns": CC_PATTERNS[cfg.get("patterns", "plain")],
                               "fqdn": FQ, "off": [] if cfg.get("obfuscate", True) else ["all"]})
 
 
@@ -424,7 +432,7 @@ def check_cc(case):
     cfg, syms = case["cfg"], case["syms"]
     lines = build_lines(syms)
     c = b_cleaner(cfg)
-    out = c.clean_content(list(lines), no_redact=cfg["no_redact"], allowlist=cfg["allow"])
+    out = c.clean_content(list(lines), no_redact=cfg["no_redact"], allowlist=cfg["allow"], no_obfuscate=cfg.get("no_obf"))
     v = []
     if not isinstance(out, list):
         return [("derivation:one-input-line-per-output-line", "a list of lines", {"output": repr(out)})], {"nt": True, "oc": "cc:notlist"}
